@@ -73,7 +73,7 @@ def run(chk):
                 chk.violation("the delegation structure of targets was altered by the update", full)
             if nt_["signed"]["version"] != c["program"][-4]["targets"]:
                 chk.broken("targets version not the one set", full)
-        for role in ("A", "B"):
+        for role in ("A", "B", "Zeta"):
             od, nd = f(old, role), f(new, role)
             if od is not None and nd != od:
                 chk.violation("delegated role %s (content or signatures) was altered by the update" % role, full)
